@@ -34,9 +34,14 @@ def repo_dir():
 
 
 def py_files(repo):
+    """every module of the package: the listed directories first (stable row order), then every other sub-package"""
     seen = []
-    for d in SCAN_DIRS:
-        full = os.path.join(repo, d)
+    dirs = [os.path.join(repo, d) for d in SCAN_DIRS]
+    for base, sub, _ in os.walk(os.path.join(repo, "typedpy")):
+        sub.sort()
+        if base not in dirs and "__pycache__" not in base:
+            dirs.append(base)
+    for full in dirs:
         if not os.path.isdir(full):
             continue
         for n in sorted(os.listdir(full)):
@@ -192,6 +197,27 @@ def _lambda_params(v):
     return out
 
 
+def _mentions_attr(val, obj, attr):
+    """does the expression read `<obj>.<attr>` (or getattr(<obj>, "<attr>"))?"""
+    o = ast.unparse(obj)
+    for x in ast.walk(val):
+        if isinstance(x, ast.Attribute) and x.attr == attr and ast.unparse(x.value) == o:
+            return True
+        if isinstance(x, ast.Call) and isinstance(x.func, ast.Name) and x.func.id == "getattr" and len(x.args) >= 2 \
+                and _const_str(x.args[1]) == attr and ast.unparse(x.args[0]) == o:
+            return True
+    return False
+
+
+def _dict_of(e):
+    """`f` for the expressions `f.__dict__` and `vars(f)`"""
+    if isinstance(e, ast.Attribute) and e.attr == "__dict__":
+        return e.value
+    if isinstance(e, ast.Call) and isinstance(e.func, ast.Name) and e.func.id == "vars" and len(e.args) == 1:
+        return e.args[0]
+    return None
+
+
 def _const_str(n):
     return n.value if isinstance(n, ast.Constant) and isinstance(n.value, str) else None
 
@@ -229,11 +255,23 @@ def scan(repo=None):
             qual = f"{cls}.{fn.name}" if cls else fn.name
             fs = FuncScan(fn, cls in fclasses, fclasses)
             writes = []
+            rmw_lines = set()
             for n in ast.walk(fn):
-                if isinstance(n, ast.Call) and isinstance(n.func, ast.Name) and n.func.id == "setattr" and len(n.args) == 3:
+                if isinstance(n, ast.Call) and len(n.args) == 3 and (
+                        (isinstance(n.func, ast.Name) and n.func.id == "setattr") or
+                        (isinstance(n.func, ast.Attribute) and n.func.attr == "__setattr__")):
+                    # setattr(f, "a", v) / object.__setattr__(f, "a", v) / super().__setattr__ is 2-ary (not here);
+                    # a computed attribute name is recorded as <dynamic>
                     attr = _const_str(n.args[1])
-                    if attr is not None and fs.is_field_expr(n.args[0]):
-                        writes.append((n.lineno, n.args[0], attr, n.args[2]))
+                    if fs.is_field_expr(n.args[0]):
+                        writes.append((n.lineno, n.args[0], attr if attr is not None else "<dynamic>", n.args[2]))
+                elif isinstance(n, ast.Call) and isinstance(n.func, ast.Attribute) and n.func.attr in _MUTATORS \
+                        and isinstance(n.func.value, ast.Attribute) and fs.is_field_expr(n.func.value.value):
+                    # f.attr.append(x) / f.attr.setdefault(k, v) / f.attr.update(..): a container hanging off a shared Field
+                    val = n.args[-1] if n.args else ast.Constant(value=None)
+                    writes.append((n.lineno, n.func.value.value, n.func.value.attr, val))
+                    if n.func.attr != "setdefault":
+                        rmw_lines.add(n.lineno)
                 elif isinstance(n, (ast.Assign, ast.AugAssign, ast.AnnAssign)):
                     tgts = n.targets if isinstance(n, ast.Assign) else [n.target]
                     val = n.value
@@ -242,10 +280,25 @@ def scan(repo=None):
                     for t in tgts:
                         if isinstance(t, ast.Attribute) and fs.is_field_expr(t.value):
                             writes.append((n.lineno, t.value, t.attr, val))
+                            if isinstance(n, ast.AugAssign) or _mentions_attr(val, t.value, t.attr):
+                                rmw_lines.add(n.lineno)     # x.a += 1 / x.a = x.a + 1: read-modify-write
+                        elif isinstance(t, ast.Subscript) and _dict_of(t.value) is not None and fs.is_field_expr(_dict_of(t.value)):
+                            # f.__dict__["a"] = v / vars(f)["a"] = v
+                            a = _const_str(t.slice)
+                            writes.append((n.lineno, _dict_of(t.value), a if a is not None else "<dynamic>", val))
+                        elif isinstance(t, ast.Subscript) and isinstance(t.value, ast.Attribute) and fs.is_field_expr(t.value.value) \
+                                and t.value.attr != "__dict__":
+                            # f.attr[k] = v: an entry of a container hanging off a shared Field object
+                            writes.append((n.lineno, t.value.value, t.value.attr, val))
+                            if isinstance(n, ast.AugAssign) or _mentions_attr(val, t.value.value, t.value.attr):
+                                rmw_lines.add(n.lineno)
                         elif isinstance(t, ast.Subscript) and isinstance(t.value, ast.Name) and t.value.id in module_dicts:
+                            rmw = isinstance(n, ast.AugAssign) or any(
+                                isinstance(x, ast.Name) and x.id == t.value.id for x in ast.walk(val))
                             rows.append({"path": rel, "file": os.path.basename(rel), "func": qual, "attr": t.value.id,
                                          "target": "<module>", "readBack": True,
-                                         "valueKind": "publishedIncomplete" if _mutated_after_publish(fn, n, t, tgts)
+                                         "valueKind": "readModifyWrite" if rmw else
+                                         "publishedIncomplete" if _mutated_after_publish(fn, n, t, tgts)
                                          else "keyedCache",
                                          "line": n.lineno, "events": {}, "first_line": _first_line(fn), "last_line": fn.end_lineno})
             for lineno, tgt, attr, val in writes:
@@ -262,12 +315,18 @@ def scan(repo=None):
                             isinstance(st.value.func, ast.Name) and st.value.func.id == "Structure" and \
                             st.lineno not in events["N"]:
                         events["N"].append(st.lineno)
+                # local names bound to the very object (`matched = field`): handing THEM to `__set__` reads the attribute too
+                aliases = {tgt_s}
+                for st in ast.walk(fn):
+                    if isinstance(st, ast.Assign) and ast.unparse(st.value) == tgt_s:
+                        aliases |= {t.id for t in st.targets if isinstance(t, ast.Name)}
                 for m in ast.walk(fn):
                     if isinstance(m, ast.Call):
                         if (isinstance(m.func, ast.Attribute) and m.func.attr == "__set__"
-                                and ast.unparse(m.func.value) == tgt_s):
+                                and ast.unparse(m.func.value) in aliases):
                             read_back = True
-                            events["S"].append(_stmt_line(fn, m))
+                            if _stmt_line(fn, m) not in events["S"]:
+                                events["S"].append(_stmt_line(fn, m))
                         if (isinstance(m.func, ast.Name) and m.func.id == "getattr" and len(m.args) >= 2
                                 and _const_str(m.args[1]) == attr and ast.unparse(m.args[0]) == tgt_s):
                             read_back = True
@@ -290,16 +349,119 @@ def scan(repo=None):
                             and len(m.args) >= 2 and _const_str(m.args[1]) == attr and ast.unparse(m.args[0]) == "self"
                             for m in ast.walk(fn))
                 rows.append({"path": rel, "file": os.path.basename(rel), "func": qual, "attr": attr, "target": tgt_s,
-                             "valueKind": fs.value_kind(val), "readBack": read_back, "line": lineno,
+                             "valueKind": "readModifyWrite" if lineno in rmw_lines else fs.value_kind(val),
+                             "readBack": read_back or lineno in rmw_lines, "line": lineno,
                              "value": ast.unparse(val), "events": events,
                              "first_line": _first_line(fn), "last_line": fn.end_lineno})
 
         visit(tree.body, None)
     for path, tree in trees.items():
         rows.extend(scan_containers(tree, os.path.relpath(path, repo)))
+        rows.extend(scan_memoized(tree, os.path.relpath(path, repo)))
     rows.extend(scan_mode_toggles(trees, repo))
+    rows.extend(scan_shared_containers(trees, repo))
     rows.sort(key=lambda r: (r["path"], r["line"]))
     return rows
+
+
+def scan_shared_containers(trees, repo):
+    """entries of MODULE-level dicts written through a method (`D.setdefault(k, v)`, `D.update(..)`) and of CLASS-level
+    containers (`Cls.attr[k] = v`, `cls.attr.append(x)`, `self.__class__.attr.add(x)`, `type(self).attr[k] += 1`) written
+    while operations run.  A single grow operation is atomic (keyedCache); computing the new content from the old
+    (`+=`, `C[k] = C.get(k, 0) + 1`) is a read-modify-write; `setdefault` whose result is then filled is
+    publish-before-fill."""
+    class_names = set()
+    for tree in trees.values():
+        class_names |= {n.name for n in ast.walk(tree) if isinstance(n, ast.ClassDef)}
+    rows = []
+
+    def class_owner(e):
+        """`Cls` / `cls` / `self.__class__` / `type(self)` -> printable owner, else None"""
+        if isinstance(e, ast.Name) and (e.id in class_names or e.id == "cls"):
+            return e.id
+        if isinstance(e, ast.Attribute) and e.attr == "__class__" and isinstance(e.value, ast.Name):
+            return ast.unparse(e)
+        if isinstance(e, ast.Call) and isinstance(e.func, ast.Name) and e.func.id == "type" and len(e.args) == 1:
+            return ast.unparse(e)
+        return None
+
+    for path, tree in trees.items():
+        rel = os.path.relpath(path, repo)
+        module_conts = {n.targets[0].id for n in tree.body if isinstance(n, ast.Assign) and len(n.targets) == 1
+                        and isinstance(n.targets[0], ast.Name) and _is_container_expr(n.value)}
+        for q, f in _all_functions(tree):
+            if f.name in DEFINITION_TIME:
+                continue
+
+            def row(attr, target, kind, line):
+                rows.append({"path": rel, "file": os.path.basename(rel), "func": q, "attr": attr, "target": target,
+                             "valueKind": kind, "readBack": True, "line": line, "events": {},
+                             "first_line": _first_line(f), "last_line": f.end_lineno})
+
+            def cont(e):
+                """(attr, target) when `e` denotes a module-level container or a class-level attribute"""
+                if isinstance(e, ast.Name) and e.id in module_conts:
+                    return e.id, "<module>"
+                if isinstance(e, ast.Attribute) and class_owner(e.value):
+                    return e.attr, class_owner(e.value)
+                return None
+
+            for n in ast.walk(f):
+                if isinstance(n, ast.Call) and isinstance(n.func, ast.Attribute) and n.func.attr in _GROW and cont(n.func.value):
+                    attr, target = cont(n.func.value)
+                    if target == "<module>" and n.func.attr not in ("setdefault", "update"):
+                        continue        # add / append on module-level containers: scan_containers (transient entries)
+                    kind = "keyedCache"
+                    if n.func.attr == "setdefault" and _filled_after(f, n):
+                        kind = "publishedIncomplete"
+                    if any(isinstance(x, (ast.Name, ast.Attribute)) and ast.unparse(x) == ast.unparse(n.func.value)
+                           for a in n.args for x in ast.walk(a)):
+                        kind = "readModifyWrite"
+                    row(attr, target, kind, n.lineno)
+                elif isinstance(n, (ast.Assign, ast.AugAssign, ast.AnnAssign)) and n.value is not None:
+                    for t in (n.targets if isinstance(n, ast.Assign) else [n.target]):
+                        if isinstance(t, ast.Subscript) and cont(t.value) and cont(t.value)[1] != "<module>":
+                            attr, target = cont(t.value)
+                            rmw = isinstance(n, ast.AugAssign) or any(
+                                isinstance(x, ast.Attribute) and ast.unparse(x) == ast.unparse(t.value) for x in ast.walk(n.value))
+                            row(attr, target, "readModifyWrite" if rmw else "keyedCache", n.lineno)
+                        elif isinstance(t, ast.Attribute) and class_owner(t.value) and isinstance(n, ast.AugAssign):
+                            row(t.attr, class_owner(t.value), "readModifyWrite", n.lineno)   # Cls.counter += 1
+                        elif isinstance(t, ast.Name) and t.id in module_conts and isinstance(n, ast.AugAssign):
+                            row(t.id, "<module>", "readModifyWrite", n.lineno)
+    return rows
+
+
+def _filled_after(fn, call):
+    """is the object returned by `C.setdefault(k, <new>)` mutated later in the function?"""
+    names = set()
+    for st in ast.walk(fn):
+        if isinstance(st, ast.Assign) and st.value is call:
+            names |= {t.id for t in st.targets if isinstance(t, ast.Name)}
+    for n in ast.walk(fn):
+        if getattr(n, "lineno", 0) <= call.lineno:
+            continue
+        if isinstance(n, ast.Call) and isinstance(n.func, ast.Attribute) and n.func.attr in _MUTATORS \
+                and isinstance(n.func.value, ast.Name) and n.func.value.id in names:
+            return True
+        if isinstance(n, (ast.Assign, ast.AugAssign)):
+            for t in (n.targets if isinstance(n, ast.Assign) else [n.target]):
+                if isinstance(t, (ast.Subscript, ast.Attribute)) and isinstance(t.value, ast.Name) and t.value.id in names:
+                    return True
+    return False
+
+
+def scan_memoized(tree, rel):
+    """functions memoised by functools (lru_cache / cache): a process-wide cache keyed by the arguments (write-once per key)"""
+    out = []
+    for q, f in _all_functions(tree):
+        for d in f.decorator_list:
+            name = ast.unparse(d.func if isinstance(d, ast.Call) else d)
+            if name.split(".")[-1] in ("lru_cache", "cache", "cached_property"):
+                out.append({"path": rel, "file": os.path.basename(rel), "func": q, "attr": "<" + name.split(".")[-1] + ">",
+                            "target": "<module>", "valueKind": "keyedCache", "readBack": True, "line": f.lineno,
+                            "events": {}, "first_line": _first_line(f), "last_line": f.end_lineno})
+    return out
 
 
 def scan_mode_toggles(trees, repo):
